@@ -15,6 +15,25 @@ CHECKS = {
             '(exact structural equality incl. key order, metadata, leaf identity).',
             'Trusted: TLC 1.8 + CommunityModules Json; harness projection/realisation (self-checked: project(realise(t)) = t on every case); '
             'out-of-tree -O1 build of the working tree behaves like the release build.', '5 C01'),
+    'C02': ('model_checking',
+            'differential against the TLA+ reference semantics (PyTreeSem.Flatten) on TLC-enumerated trees incl. all insertion permutations; TLC judge',
+            'Layer D is the independent executable reference of the documented ordering / classification rules. TLC checks the None-removal, '
+            'predicate-refinement, insertion-permutation and classification laws on every TreeGen forest (alphabet K: every insertion '
+            'permutation of <=3..4 keys over int/str/float/ordered/unorderable keys); the real tree_flatten / tree_leaves / tree_structure / '
+            'tree_replace_nones outputs for every dumped tree, HistGen history-built containers and random trees are compared by TLC with the reference.',
+            'As C01. Partially ordered key types (frozenset) are outside the universe; key universe = int, str, float(x.5), an ordered user class, an unorderable user class.', '5 C02'),
+    'C03': ('model_checking',
+            'all eight traversal entry points + reductions on TLC-enumerated trees (incl. single malformed custom nodes, depth limit by offset) judged by TLC against PyTreeSem',
+            'Every entry point is compared with layer D (hence with every other one): leaves by identity, full node arrays, paths, typed '
+            'accessors, hash/repr of the returned treespecs, tree_is_leaf / all_leaves, the six reductions against Python folds; error '
+            'classes for single-fault trees (TreeGen alphabet F places one malformed custom node at every position); RecursionError at exactly '
+            'MAX_RECURSION_DEPTH+1 for 9 node kinds, bound to the model (MaxDepth=4) by offset.',
+            'As C01. Error parity is claimed for single-fault trees only (the iterator validates entries before descending, the flattener after).', '5 C03'),
+    'C04': ('model_checking',
+            'TLC laws on paths (Access(tree,path_i)=leaf_i, prefix-free) + real accessors applied/split/codified on TLC-enumerated trees, typing judged against the A4 table in TLA+',
+            'TLC proves the path laws on every TreeGen tree; the real accessors are applied to the real tree (identity logged), split at every '
+            'position, compared across three routes, codified and evaluated; TLC judges entry class / node type / kind / field name of every step.',
+            'As C01. Custom nodes of the universe expose children through __getitem__ with their declared entries.', '5 C04'),
 }
 
 NOT_YET = {}
